@@ -102,6 +102,9 @@ def initvals(inst, cfg):
         iv['y'] = cvx.dmat([0.25 * (i + 1) for i in range(p)])
     if 'z' in keys:
         iv['z'] = cvx.dmat(lower_sym(dom.interior(d, 0, 3), d))
+    bad = cfg.get('badstart')
+    if bad:
+        iv[bad[0]] = iv[bad[0]] * (-1.0 if bad[1] == 'neg' else 0.0)      # see solve.starts
     return iv
 
 
